@@ -400,8 +400,12 @@ func noPanic(fn func()) (panicked bool, msg string) {
 func (f *Fix) armHook(e *sim.Env, hook string) {
 	a := e.App
 	switch hook {
-	case "liqV2.sweepVault", "liqV2.sweepBorrow", "liqV1.sweepVault", "liqV2.msgInternalVault", "liqV2.msgInternalBorrow", "liqV1.msgVault":
+	case "liqV2.sweepVault", "liqV2.sweepBorrow", "liqV1.sweepVault", "liqV1.sweepBorrow", "liqV2.msgInternalVault", "liqV2.msgInternalBorrow",
+		"liqV1.msgVault", "liqV1.msgBorrow", "app.blockCommodo":
 		SetPrice(e, f.CMDX, 1500000, true) // the risk account's vault / borrow become unsafe
+	case "app.blockHarbor":
+		SetPrice(e, f.CMDX, 1500000, true)
+		f.armHook(e, "liqV2.surplus")
 	case "liqV2.surplus", "aucV1.surplus":
 		must(a.CollectorKeeper.WasmSetAuctionMappingForApp(e.Ctx, &bindings.MsgSetAuctionMappingForApp{AppID: f.AppHarbor, AssetIDs: f.CMST,
 			IsSurplusAuctions: true, IsDebtAuctions: false, IsDistributor: false, AssetOutOraclePrices: false, AssetOutPrices: 1000000}))
@@ -431,14 +435,20 @@ func (f *Fix) runHook(e *sim.Env, hook string) (res sim.Result) {
 	switch hook {
 	case "liqV2.sweepVault", "liqV2.sweepBorrow", "liqV2.surplus", "liqV2.debt":
 		p, ps = noPanic(func() { liquidationsV2.BeginBlocker(e.Ctx, abci.RequestBeginBlock{}, a.NewliqKeeper) })
-	case "liqV1.sweepVault":
+	case "liqV1.sweepVault", "liqV1.sweepBorrow":
 		p, ps = noPanic(func() { liquidation.BeginBlocker(e.Ctx, abci.RequestBeginBlock{}, a.LiquidationKeeper) })
 	case "aucV1.surplus", "aucV1.debt":
 		p, ps = noPanic(func() { auction.BeginBlocker(e.Ctx, a.AuctionKeeper, a.AssetKeeper, a.CollectorKeeper, a.EsmKeeper) })
+	case "app.blockHarbor", "app.blockCommodo":
+		if br := e.NextBlock(6 * time.Second); br.Panic {
+			p, ps = true, br.Err
+		}
 	case "liqV2.msgInternalVault":
 		return e.Deliver(&liquidationsV2types.MsgLiquidateInternalKeeperRequest{From: f.Other.String(), LiqType: 0, Id: f.vaultID(e, f.Risk, f.EpCmdx)})
 	case "liqV2.msgInternalBorrow":
 		return e.Deliver(&liquidationsV2types.MsgLiquidateInternalKeeperRequest{From: f.Other.String(), LiqType: 1, Id: f.borrowOf(e, f.Risk, f.PairCmdxCmst)})
+	case "liqV1.msgBorrow":
+		return e.Deliver(&liquidationtypes.MsgLiquidateBorrowRequest{From: f.Other.String(), BorrowId: f.borrowOf(e, f.Risk, f.PairCmdxCmst)})
 	case "liqV1.msgVault":
 		return e.Deliver(&liquidationtypes.MsgLiquidateVaultRequest{From: f.Other.String(), AppId: f.AppHarbor, VaultId: f.vaultID(e, f.Risk, f.EpCmdx)})
 	}
